@@ -144,7 +144,7 @@ class MembershipMonitor(Monitor):
         if s.first is None:
             return
         base = set(model.cfg.members or model.cfg.voter_ids())
-        m0 = dict(s.extra).get('members0') if len(s.extra) > 1 else None
+        m0 = dict(s.extra).get('members0') if len(s.extra) > 2 else None
         if m0 is not None and s.first == 1:
             base = set(m0)      # a spawned node starts from the member list it was given
         com = w.ghost[0].committed
